@@ -1,6 +1,6 @@
 //! C16 — inference windows tile the text exactly and respect the size limits.
 use crate::core::*;
-use crate::gen::{chars_of, CLUSTERS};
+use crate::gen::{self, chars_of, CLUSTERS};
 use rand::seq::IndexedRandom;
 use rand::Rng as _;
 use serde::{Deserialize, Serialize};
@@ -72,6 +72,9 @@ fn gen_text(rng: &mut Rng) -> String {
     }
     let total: u32 = pools.iter().map(|p| p.1).sum();
     let n = match rng.random_range(0..100) {
+        // `large` lane: 121 - 8000 symbols (the repo's position lookup is linear in the number
+        // of runs of equal byte width, so windows over longer mixed-width texts cost seconds)
+        _ if gen::scale() > 1 => rng.random_range(121..=gen::sc(120).min(8_000)),
         0 => 0,
         1..=30 => rng.random_range(1..=8),
         31..=75 => rng.random_range(9..=40),
@@ -93,6 +96,7 @@ fn gen_text(rng: &mut Rng) -> String {
 
 fn gen_limits(rng: &mut Rng) -> (usize, usize) {
     let max: usize = match rng.random_range(0..100) {
+        50..=99 if gen::scale() > 1 => rng.random_range(41..=gen::sc(400).min(20_000)),
         0 => 0,
         1..=70 => rng.random_range(1..=12),
         71..=97 => rng.random_range(13..=40),
@@ -313,6 +317,11 @@ impl Prop for C16 {
             Lane::new("extreme", tier.pick(20_000, 200_000))
                 .cap(tier.pick(90, 300))
                 .floor(tier.pick(1_000, 10_000)),
+            // texts of 121 - 8000 symbols (hundreds to thousands of runs of equal byte width),
+            // half of the cases with window limits of 41 - 20 000
+            Lane::new("large", tier.pick(3_000, 60_000))
+                .cap(tier.pick(150, 1200))
+                .floor(tier.pick(200, 4_000)),
         ]
     }
 
